@@ -68,6 +68,8 @@ TOTAL = {
     "HashMap::<K, V, S, A>::remove": "returns Option", "HashMap::<K, V, S, A>::len": "pure", "HashMap::<K, V, S, A>::is_empty": "pure",
     "HashMap::<K, V, S, A>::iter": "pure", "HashMap::<K, V, S, A>::values": "pure", "HashMap::<K, V, S, A>::keys": "pure",
     "HashMap::<K, V, S, A>::get_mut": "returns Option", "HashMap::<K, V, S, A>::into_iter": "pure",
+    "Entry::<'a, K, V>::or_default": "alloc only", "Entry::<'a, K, V>::or_insert_with": "alloc only (closure analysed)",
+    "<impl [T; N]>::map": "pure (closure analysed as its own body)",
     "hash_map::Entry::<'a, K, V, A>::or_default": "alloc only", "hash_map::Entry::<'a, K, V, A>::or_insert_with": "alloc only (closure analysed)",
     "hash_map::Entry::<'a, K, V, A>::or_insert": "alloc only", "hash_map::Entry::<'a, K, V>::or_default": "alloc only",
     "BTreeMap::<K, V>::new": "pure", "BTreeMap::<K, V, A>::insert": "alloc only; key Ord is derived", "BTreeMap::<K, V, A>::get": "returns Option",
